@@ -107,6 +107,16 @@ def run(ctx):
     c01._thread_in(ctx, fi, ff, None)
     for o in ctx.obs[before:]:
         o.rule = 'C12.R4'
+    feasibility_gates(ctx, 'C12.R4')
+    column_provenance(ctx, 'C12.R1')
+    _tail(ctx)
+    return _explanation()
+
+
+def feasibility_gates(ctx, rule):
+    """create_solution_from refuses a stock without the solute and a solvent that is the solute (by value)."""
+    fi = ctx.model.func('Container.create_solution_from')
+    ff = ctx.flow('Container.create_solution_from')
     solves = [(c, s, b) for c, s, b in ff.calls if isinstance(c.func, ast.Attribute) and c.func.attr == 'solve']
     for c, s, b in solves:
         def present(cc):
@@ -115,11 +125,13 @@ def run(ctx):
         def distinct(cc):
             return cc.op == 'ne' and {getattr(strip_refs(x), 'name', None) for x in (cc.left, cc.right)} == {'solute', 'solvent'}
         g1, g2 = gate_with(b, present, 'ValueError'), gate_with(b, distinct, 'ValueError')
-        ctx.ob('C12.R4', fi, s.lineno, 'the stock must contain the solute', bool(g1), fact=str(g1[0]) if g1 else 'no gate',
+        ctx.ob(rule, fi, s.lineno, 'the stock must contain the solute', bool(g1), fact=str(g1[0]) if g1 else 'no gate',
                why='a stock without the solute reaches the solver', key='solute present gate')
-        ctx.ob('C12.R4', fi, s.lineno, 'solute and solvent must differ', bool(g2), fact=str(g2[0]) if g2 else 'no gate',
+        ctx.ob(rule, fi, s.lineno, 'solute and solvent must differ', bool(g2), fact=str(g2[0]) if g2 else 'no gate',
                why='diluting a substance with itself is accepted', key='solute differs gate')
-    column_provenance(ctx, 'C12.R1')
+
+
+def _tail(ctx):
     # the stock's residual must reach the recipe's results, and the aliquots rely on a correct transfer
     from .c08 import operands_written_back
     operands_written_back(ctx, 'C12.R4', only=('solution_from',))
@@ -127,6 +139,9 @@ def run(ctx):
     uscan.report_sinks(ctx, lambda cat: 'C12.R4' if cat in ('convert-from-unit', 'sum-mix', 'add-units', 'to-storage', 'qstr',
                                                             'storage-label', 'compare-units', 'store-contents',
                                                             'store-volume', 'from-storage') else None, tsc)
+
+
+def _explanation():
     return {'explanation': 'The 2x2 system of create_solution_from is interpreted with entry-wise units for every '
                            'numerator/denominator pair, every quantity unit, solid and liquid solutes and pure or '
                            'container solvents: the unknowns get their units from the quantity row and must be the mL '
